@@ -257,6 +257,16 @@ impl Expr {
                                 }
                             }
 
+                            // a `str` has no element that could be updated in place
+                            if let Expr::Index { lhs_raw, .. } = lhs.as_ref() {
+                                if matches!(
+                                    lhs_raw.for_type(flags)?.disregard_distractors(false),
+                                    TypeLayout::Native(NativeType::Str(..))
+                                ) {
+                                    bail!("cannot apply {op} to an indexed `str`: a `str` cannot be changed through an index")
+                                }
+                            }
+
                             match lhs.as_ref() {
                                 Expr::DotLookup { expected_type, .. } => Cow::Borrowed(expected_type),
                                 index => Cow::Owned(index.for_type(flags)?),
